@@ -207,6 +207,11 @@ def prepare_ops(spec, dev, tmp):
                 os.makedirs(d)
                 a['files'] = {}
                 for k, (name, size) in enumerate(op.get('files', [])):
+                    if name.endswith('/'):
+                        os.makedirs(os.path.join(d, name.rstrip('/')))       # a sub-directory inside the pushed directory (push is not recursive)
+                        with open(os.path.join(d, name.rstrip('/'), 'inner'), 'wb') as f:
+                            f.write(b'inner')
+                        continue
                     fd = fast_pattern(seed + 2000 + i * 50 + k, size)
                     a['files'][name] = fd
                     with open(os.path.join(d, name), 'wb') as f:
@@ -224,6 +229,7 @@ def prepare_ops(spec, dev, tmp):
         args.append(a)
 
     counter = {'sync': 0}
+    per_op = {}
     sync_ops = [i for i, op in enumerate(spec['ops']) if op['api'] in ('stat', 'list', 'pull', 'push')]
 
     def service_for(dest, d):
@@ -232,7 +238,11 @@ def prepare_ops(spec, dev, tmp):
         cur = d.cur_op
         op = spec['ops'][cur] if cur is not None else {}
         pl = op.get('plan')
-        plan = simdev.SyncFailPlan(**{k: (v.encode('latin1') if k == 'reason' else v) for k, v in pl.items()}) if pl else None
+        nth_ = per_op.get(cur, 0)
+        per_op[cur] = nth_ + 1
+        if pl and pl.get('nth') is not None and pl['nth'] != nth_:
+            pl = None                          # the plan is for the nth sync stream of the operation only (the nth file of a directory push)
+        plan = simdev.SyncFailPlan(**{k: (v.encode('latin1') if k == 'reason' else v) for k, v in pl.items() if k != 'nth'}) if pl else None
         r = random.Random(seed * 31 + cur * 17 + counter['sync'])
         counter['sync'] += 1
         sizes = op.get('data_sizes')
@@ -311,6 +321,7 @@ def run(spec, mode='sync', rec=None, chooser=None, keep_session=False, **core_kw
             kw['wcap'] = (lambda n: r.randint(1, n)) if w == 'random' else (lambda n: max(1, min(n, w)))
         s = env.Session(mode, dev, **kw)
         s.loop_per_call = bool(spec.get('loop_per_call')) and mode == 'async'
+        dev.clock = s.clock
         rr.sess = s
         if spec.get('mangle'):
             # the n-th WRITE of the device is damaged on the wire: dict(nth=, kind='check0' | 'check+1' | 'flip')
@@ -1007,6 +1018,7 @@ def sync_traces(rr, spec, inert=None, only=None):
         files = a.get('files') if api == 'push' else None
         tr = [dict(ev='call', api=api, size=size, cb=bool(op.get('cb')), nfiles=len(files) if files is not None else 1)]
         cur_src = a.get('data', b'')
+        send_clk = prev_send_clk = None
         for st in streams:
             svc = st.service
             off = 0
@@ -1016,6 +1028,7 @@ def sync_traces(rr, spec, inert=None, only=None):
                         tr.append(dict(ev='prx', id=r['id'], specOk=(r['data'] == a['path'].encode('utf8') and r['arg'] == len(r['data']))))
                     continue
                 if r['id'] == 'SEND':
+                    prev_send_clk, send_clk = send_clk, r.get('clk')
                     if files is not None:
                         pth, _, md_ = r['data'].rpartition(b',')
                         name = pth.decode('utf8', 'replace')[len(a['dpath']) + 1:]
@@ -1033,7 +1046,10 @@ def sync_traces(rr, spec, inert=None, only=None):
                 elif r['id'] == 'DONE':
                     mt = op.get('mtime', 0)
                     c0, c1 = clks.get(i, [0, 0])
-                    ok = (r['arg'] == mt) if mt else (c0 <= r['arg'] <= (c1 if c1 is not None else c0))
+                    # mtime 0 means "now", taken while this file is being pushed: not before the previous file's SEND had reached the device
+                    # (this file was begun after that), not after the call ended
+                    lo = prev_send_clk if prev_send_clk is not None else c0
+                    ok = (r['arg'] == mt) if mt else (lo <= r['arg'] <= (c1 if c1 is not None else c0))
                     tr.append(dict(ev='prx', id='DONE', fsize=len(cur_src), mtimeOk=bool(ok)))
                 else:
                     tr.append(dict(ev='prx', id=r['id']))
@@ -1070,6 +1086,7 @@ def sync_traces(rr, spec, inert=None, only=None):
             forms = [reason, rb.decode('utf8', 'backslashreplace'), repr(rb)[2:-1], rb.decode('utf8', 'replace'),
                      repr(bytearray(rb))[12:-2], repr(reason)[1:-1], repr(rb.decode('utf8', 'replace'))[1:-1]]       # whatever quoting repr() chose
             tr.append(dict(ev='exc', api=api, cls=o.exc_name, reasonIn=any(f in str(o.exc) for f in forms) if reason else True,
-                           healthy=not plan and not spec.get('faulty') and not isinstance(op.get('dest'), list) and 'budget' not in op, inert=ok_inert, dir=files is not None))
+                           healthy=not plan and not spec.get('faulty') and not isinstance(op.get('dest'), list) and 'budget' not in op and not any(str(n_).endswith('/') for n_, _ in op.get('files', [])),
+                           inert=ok_inert, dir=files is not None))
         out.append((i, tr))
     return out
